@@ -939,7 +939,9 @@ def probes():
     P.append(('action-brace-in-string', rule('{ s := "}" }'), [N('Action', ' s := "}" ')], 'a brace inside a Go string inside an action'))
     P.append(('action-brace-in-string-accepted', rule("{ a(\"}\") } 'x' { b(\"{\") }"), None, 'braces inside Go strings: silently a different rule?'))
     P.append(('action-brace-in-comment', rule('{ // }\n }'), None, 'a brace inside a Go comment inside an action'))
-    P.append(('class-trailing-dash', rule('[a-]'), [N('Alternate', '', [CH(97), CH(45)])], '[a-]: in peg(1)/regex a trailing dash is literal'))
+    # [a-]: peg(1) and regular expressions take a trailing dash literally; this project's documentation says nothing about it
+    # (the dash has the escape \\-), so there is no documented meaning: rejecting it is as good as accepting it (no expectation)
+    P.append(('class-trailing-dash', rule('[a-]'), None, '[a-]: undocumented; real must not crash and must agree with the model'))
     P.append(('class-caret-only', rule('[^]'), None, '[^]'))
     P.append(('escape-unknown', rule("'\\q'"), 'error', 'unknown escape'))
     P.append(('escape-x41', rule("'\\x41'"), 'error', '\\x41 is not the documented hex spelling'))
